@@ -1,0 +1,105 @@
+//go:build verif
+
+package main
+
+import (
+	"bufio"
+	"bytes"
+	"encoding/json"
+	"net/url"
+	"os"
+)
+
+// With the build tag "verif", "scriggo verif-linkdest" turns the command into
+// a co-process of the runtime-monitoring harness: it reads one JSON request
+// per line from the standard input and writes one JSON response per line to
+// the standard output. All checking is done by the harness.
+//
+// Request:  {"op":"replace","base":"https://h/p/","dir":"docs","src":"..."}
+//
+//	{"op":"escape","s":"..."}   markdownURLEscape
+//	{"op":"unescape","s":"..."} markdownUnescape
+//
+// Response: {"out":"...","err":"...","panic":"..."}
+func init() {
+	if len(os.Args) < 2 || os.Args[1] != "verif-linkdest" {
+		return
+	}
+	type request struct {
+		Op   string `json:"op"`
+		Base string `json:"base"`
+		Dir  string `json:"dir"`
+		Src  []byte `json:"src"`
+		S    []byte `json:"s"`
+	}
+	type response struct {
+		Out   []byte `json:"out"`
+		Err   string `json:"err,omitempty"`
+		Panic string `json:"panic,omitempty"`
+	}
+	in := bufio.NewReaderSize(os.Stdin, 1<<20)
+	out := bufio.NewWriter(os.Stdout)
+	enc := json.NewEncoder(out)
+	for {
+		line, err := in.ReadBytes('\n')
+		if len(line) > 0 {
+			var req request
+			var res response
+			if jerr := json.Unmarshal(line, &req); jerr != nil {
+				res.Err = "bad request: " + jerr.Error()
+			} else {
+				func() {
+					defer func() {
+						if v := recover(); v != nil {
+							res.Panic = "panic: " + sprint(v)
+						}
+					}()
+					switch req.Op {
+					case "replace":
+						base, perr := url.Parse(req.Base)
+						if perr != nil {
+							res.Err = "bad base: " + perr.Error()
+							return
+						}
+						var dst bytes.Buffer
+						if req.Src == nil {
+							req.Src = []byte{}
+						}
+						rerr := linkDestinationReplacer{base: base, dir: req.Dir}.replace(&dst, req.Src)
+						if rerr != nil {
+							res.Err = rerr.Error()
+						}
+						res.Out = dst.Bytes()
+					case "escape":
+						res.Out = []byte(markdownURLEscape(string(req.S)))
+					case "unescape":
+						s, uerr := markdownUnescape(req.S)
+						if uerr != nil {
+							res.Err = uerr.Error()
+						}
+						res.Out = []byte(s)
+					default:
+						res.Err = "unknown op"
+					}
+				}()
+			}
+			enc.Encode(res)
+			out.Flush()
+		}
+		if err != nil {
+			break
+		}
+	}
+	os.Exit(0)
+}
+
+func sprint(v any) string {
+	if e, ok := v.(error); ok {
+		return e.Error()
+	}
+	if s, ok := v.(string); ok {
+		return s
+	}
+	b, _ := json.Marshal(v)
+	return string(b)
+}
